@@ -107,15 +107,15 @@ func (m *MigrationManager) Versions() []migration.Version {
 // 'usedAddrBucketName' a bucket for storing addrs flagged as marked is
 // initialized and it will be updated on the next rescan.
 func upgradeToVersion2(ns walletdb.ReadWriteBucket) error {
-	currentMgrVersion := uint32(2)
-
 	_, err := ns.CreateBucketIfNotExists(usedAddrBucketName)
 	if err != nil {
 		str := "failed to create used addresses bucket"
 		return managerError(ErrDatabase, str, err)
 	}
 
-	return putManagerVersion(ns, currentMgrVersion)
+	// The new version is recorded by the migration framework once all
+	// pending migrations have succeeded.
+	return nil
 }
 
 // upgradeToVersion5 upgrades the database from version 4 to version 5. After
@@ -144,11 +144,9 @@ func upgradeToVersion5(ns walletdb.ReadWriteBucket) error {
 		return err
 	}
 
-	// Next, we'll write out the new database version.
-	if err := putManagerVersion(ns, 5); err != nil {
-		return err
-	}
-
+	// The new database version is recorded by the migration framework once
+	// all pending migrations have succeeded.
+	//
 	// First, we'll need to create the new buckets that are used in the new
 	// database version.
 	scopeBucket, err := ns.CreateBucket(scopeBucketName)
